@@ -260,6 +260,24 @@ def run(st, tier, seed):
             continue
         expected = "+".join("".join(c * n for c, n in zip(sg, dm)) for sg, dm in zip(segs, doms))
 
+        # how each domain is written: a base sequence, a super-sequence of several base pieces (ONE domain symbol all the same), a
+        # quoted region, or (once per strand, with the strand's length declared) a `?` region
+        reps = []
+        for dm in doms:
+            rr, wild = [], False
+            for n in dm:
+                x = rng.random()
+                if x < 0.55:
+                    rr.append(("base",))
+                elif x < 0.8:
+                    cuts = sorted(rng.randint(0, n) for _ in range(rng.choice([1, 1, 2])))
+                    rr.append(("sup", [b_ - a_ for a_, b_ in zip([0] + cuts, cuts + [n])]))
+                elif x < 0.9 or wild or n == 0:
+                    rr.append(("quoted",))
+                else:
+                    rr.append(("wild",)); wild = True
+            reps.append(rr)
+
         def build():
             comp = Component("c", "", [])
             names = []
@@ -267,9 +285,20 @@ def run(st, tier, seed):
                 ds = []
                 for di, n in enumerate(dm):
                     nm = "d%d_%d" % (si, di)
-                    comp.add_sequence(nm, [[n, "N"]], None)
-                    ds.append(["sequence", [nm, False]])
-                comp.add_strand(False, "S%d" % si, ds, None)
+                    rp = reps[si][di]
+                    if rp[0] == "base":
+                        comp.add_sequence(nm, [[n, "N"]], None)
+                        ds.append(["sequence", [nm, False]])
+                    elif rp[0] == "sup":
+                        for pi, pn in enumerate(rp[1]):
+                            comp.add_sequence("%s_p%d" % (nm, pi), [[pn, "N"]], None)
+                        comp.add_super_sequence(nm, [["sequence", ["%s_p%d" % (nm, pi), False]] for pi in range(len(rp[1]))], None)
+                        ds.append(["sequence", [nm, False]])
+                    elif rp[0] == "quoted":
+                        ds.append(["nucleotide", [[n, "N"]]])
+                    else:
+                        ds.append(["nucleotide", [["?", "N"]]])
+                comp.add_strand(False, "S%d" % si, ds, sum(dm) if any(r_[0] == "wild" for r_ in reps[si]) else None)
                 names.append("S%d" % si)
             dp = parse_structure_statement(stmt(spell_plain(rng, d), True))[3]
             comp.add_structure(1.0, "X", names, dp)
@@ -277,10 +306,10 @@ def run(st, tier, seed):
         r = call(build)
         res.evaluations += 1
         res.count("domain-level:" + ("inconsistent" if broken else "consistent"))
-        cmd = "Component.add_structure with domain lengths %r and 'domain %s'" % (doms, d)
+        cmd = "Component.add_structure with domain lengths %r written as %r and 'domain %s'" % (doms, reps, d)
         if not broken and r != {"ok": expected}:
             res.violations.append({"what": "domain-level description with consistent lengths does not expand to its structure",
-                                   "input": {"domain_struct": d, "domain_lengths": doms}, "expected": expected, "observed": r,
+                                   "input": {"domain_struct": d, "domain_lengths": doms, "domains_written_as": reps}, "expected": expected, "observed": r,
                                    "sig": "C08:domain", "cmd": cmd})
         if "ok" in r:
             s2 = r["ok"]
